@@ -29,6 +29,7 @@ pub mod rodbus {
     pub use crate::server_types::*;
     pub mod server { pub use crate::ffi_server::Authorization; pub use crate::rodbus_server::*; }
     pub mod client { pub use crate::rodbus_client::*; }
+    pub use crate::rodbus_client::doubling_retry_strategy;
 }
 pub mod rodbus_client {
 //@include frag/ffi_rodbus_client_shim.tpl
